@@ -1,12 +1,16 @@
-import Mastverif.Model.Cursor
-import Mastverif.Lemmas.Basic
+import Mastverif.Lemmas.Seek
 /-!
 # C10 — cursor and seek navigation (property theorems, partial)
 
 The cursor functions are total on every tree, including both empty forms: there is no input
 on which the model (and, by the `cursor` family, the repaired Go code) panics — the three
 panics of the pinned release were repaired (known_findings.txt).
-Proved so far about positions: the in-node search `lowerBound` returns the index of the
+`C10_seekIter_spec`: iterating from a probe key — the repaired `SeekIter`: seek with the `Ceil`
+descent, then emit from every path entry, deepest first — yields EXACTLY the entries whose keys
+are not smaller than the probe, ascending, each once, for every tree with strictly ascending
+entries (any shape, height, residency; the probe present or absent, of any layer);
+`C10_seekIter_stop`: a callback that signals done after j entries has seen exactly the first j.
+Proved about cursor positions: the in-node search `lowerBound` returns the index of the
 first key that is not smaller than the probe (`C10_lowerBound_spec`), and a cursor with an
 empty path reports "no entry" and stays empty under every move (`C10_off_end_is_absorbing`).
 The refinement of Min / Max / Ceil / Forward / Backward to index arithmetic on the sorted entry
@@ -48,6 +52,23 @@ theorem C10_off_end_is_absorbing (fuel k : Nat) :
   refine ⟨rfl, rfl, rfl, rfl, rfl, ?_⟩
   cases fuel <;> rfl
 
+theorem C10_seekIter_spec (root : T) (k fuel : Nat) (hs : Sorted (toList root)) (hf : lvl root < fuel) :
+    Cursor.seekIter fuel root k = (toList root).dropWhile (fun e => decide (e.1 < k)) := by
+  unfold Cursor.seekIter
+  have := Cursor.out_ceil k fuel root 0 [] hf
+  simp only [Cursor.out, List.map_nil, List.flatten_nil, List.append_nil] at this
+  rw [this, seekT_spec k root hs]
+
+theorem C10_seekIter_stop (root : T) (k fuel j : Nat) (hs : Sorted (toList root)) (hf : lvl root < fuel) :
+    (Cursor.seekIter fuel root k).take j = ((toList root).dropWhile (fun e => decide (e.1 < k))).take j := by
+  rw [C10_seekIter_spec root k fuel hs hf]
+
+/-- non-vacuity: probe 5 (absent) on a two-level tree -/
+example : Cursor.seekIter 10 (cons false (cons false nil 2 0 (last false nil)) 4 0 (last false (cons false nil 7 0 (last false nil)))) 5 = [(7, 0)] := by
+  decide
+
 end Mast
+#print axioms Mast.C10_seekIter_spec
+#print axioms Mast.C10_seekIter_stop
 #print axioms Mast.C10_lowerBound_spec
 #print axioms Mast.C10_off_end_is_absorbing
